@@ -189,13 +189,16 @@ PROPS = {
         level_note=_MODELLED + "Builder shortcuts of minterms.cc are not mirrored; EV+/EV* collections are "
                    "compared at table level only."),
     "C04": dict(
-        gens=[("setalg", gen.gen_C04, 1.0)], quick=60, thorough=600,
+        gens=[("setalg", gen.gen_C04, 0.6), ("cross", gen.gen_C04_cross, 0.3),
+              ("reuse-set", lambda r: gen.gen_reuse(r, "set"), 0.3),
+              ("reuse-cross", lambda r: gen.gen_reuse(r, "cross"), 0.4)], quick=60, thorough=600,
         level_text="Proved: the generic apply recursion is pointwise for any scalar function under any mix of "
                    "operand/result reduction rules, and its result is reduced. Tie: tables+dumps of "
                    "UNION/INTERSECTION/DIFFERENCE/COMPLEMENT across forests; operands re-shown unchanged.",
         level_note=_MODELLED + "The library's terminal shortcuts and compute table are not mirrored (C07)."),
     "C05": dict(
-        gens=[("arith", gen.gen_C05, 1.0)], quick=60, thorough=600,
+        gens=[("arith", gen.gen_C05, 0.8), ("reuse-arith", lambda r: gen.gen_reuse(r, "arith"), 0.4)],
+        quick=60, thorough=600,
         level_text="Proved: element-wise binary/unary operations are pointwise for an arbitrary scalar function "
                    "(instantiated with the catalogue in Model/Scalar.v). Tie: tables+dumps for "
                    "plus/minus/mult/max/min/distmin/comparisons on integer and real MT forests.",
@@ -258,7 +261,8 @@ PROPS["C06"] = dict(
     level_note=_MODELLED + "Kernel theorems about the counter arrays are in progress (partial); use-after-free "
                "in the C++ runtime is outside what a Gallina model can exhibit.")
 PROPS["C07"] = dict(
-    gens=[("hist", lambda r: gen.gen_hist(r, blank=True), 1.0)], quick=30, thorough=300, rule=_AUDIT_RULE +
+    gens=[("hist", lambda r: gen.gen_hist(r, blank=True), 0.7), ("reuse", gen.gen_reuse, 0.6)],
+    quick=30, thorough=300, rule=_AUDIT_RULE +
     "; every script is re-run under 5 other compute-table configurations (style x stale policy x max size x "
     "compression) and once with the caches cleared after every command: all observations must coincide",
     level_text="Results are compared across compute-table configurations and against the cache-free model "
@@ -267,6 +271,50 @@ PROPS["C07"] = dict(
     level_note=_MODELLED + "memo_transparent (any sound cache, any eviction) is proved for the generic "
                "memoised recursion in Model/Memo.v when present; key adequacy per operation is by correspondence.")
 
+PROPS["C08"] = dict(
+    gens=[("reach", gen.gen_C08, 1.0)], quick=50, thorough=500,
+    level_text="Proved: both breadth-first iterations (with and without frontier) return exactly the inductively "
+               "defined set of reachable states for every initial set and relation over any finite state list, "
+               "and terminate within |states|+1 rounds. Tie: REACHABLE_TRAD_FS / _NOFS / REACHABLE_SATUR, forward "
+               "and backward, against the model's least fixed point (table + canonical dump) and == among them.",
+    level_note=_MODELLED + "Saturation itself is not mirrored: its result is compared with the proved BFS "
+               "result (partial); distance-valued variants not covered yet.")
+PROPS["C09"] = dict(
+    gens=[("image", gen.gen_C09, 0.8), ("reuse-image", lambda r: gen.gen_reuse(r, "image"), 0.4)],
+    quick=50, thorough=500,
+    level_text="Model = the relational definition (exists x. S(x) and R(x,y); sum_x v(x)M(x,y)) realised as the "
+               "canonical diagram of that function (of_fun, proved to evaluate to it and to be reduced). Tie: "
+               "POST_IMAGE / PRE_IMAGE / VM_MULTIPLY / MV_MULTIPLY over all relation-forest rules.",
+    level_note=_MODELLED + "The image algorithm (prepost_set_mtrel) is not mirrored; distance-valued and EV+ "
+               "operands are not covered yet.")
+PROPS["C11"] = dict(
+    gens=[("enum", gen.gen_C11, 1.0)], quick=50, thorough=500,
+    level_text="Model = the specification: the non-default entries of the evaluation table that match the mask, "
+               "in lexicographic order; cardinality = their number; node/edge counts = distinct sub-diagrams of "
+               "the canonical diagram. Tie: full visited sequences of dd_edge::iterator with and without masks "
+               "(fixed / free / unchanged), CARDINALITY in long/double/mpz, getNodeCount/getEdgeCount.",
+    level_note=_MODELLED + "The iterator's cursor state machine is not mirrored (sequence disagreements expose "
+               "resumption bugs); long/double overflow of cardinalities not modelled.")
+PROPS["C15"] = dict(
+    gens=[("index", gen.gen_C15, 1.0)], quick=50, thorough=500,
+    level_text="Model = rank in the lexicographic enumeration of members; getElement(i) = i-th member, failing "
+               "outside 0..n-1. Tie: CONVERT_TO_INDEX_SET tables and getElement for -2..|domain|+1 on random and "
+               "boundary (empty, full) sets from fully- and quasi-reduced forests.",
+    level_note=_MODELLED + "EV+ structure of the index set (stored cardinalities) is checked by the audit "
+               "clauses only.")
+
+PROPS["C12"] = dict(
+    gens=[("hist", lambda r: gen.gen_hist(r, fanin=False), 0.7), ("reuse", gen.gen_reuse, 0.5)],
+    quick=30, thorough=300, rule=_AUDIT_RULE +
+    "; every script is re-run under 6 other (storage flag, memory manager, deletion policy) combinations: all "
+    "observations (tables, canonical dumps, node and edge counts, cardinalities) must coincide",
+    level_text="Proved: the packed-node codec returns the written children for every storage flag (so content, "
+               "hash and duplicate test are flag-independent); allocator safety for every manager history is "
+               "C18; the model itself has no policies, and the library must agree with it under every policy "
+               "combination. Tie: each history under 6 sampled policy combinations (of 36) + the model.",
+    level_note=_MODELLED + "Independence from the deletion policy is established by correspondence (audit "
+               "clauses 10-12 under each policy), not by a theorem.")
+
 NOT_APPLICABLE = {}
-for _p in ["C08", "C09", "C11", "C12", "C13", "C14", "C15", "C16", "C17", "C20"]:
+for _p in ["C13", "C14", "C16", "C17", "C20"]:
     NOT_APPLICABLE[_p] = "check under construction in this session (model and correspondence stream not registered yet)"
